@@ -81,8 +81,20 @@ pub fn check_error_shape(e: &JmespathError, expr: &str, doc: &Value, sub: &str, 
         }
     };
     if want != got {
-        st.violate(viol("C12/rendering", sub, expr, doc, want, got));
-        return false;
+        // The property fixes the content, not the wording: the reason, both coordinates, and a
+        // caret line (column C spaces, then '^') directly under line L of the expression.
+        let reason = e.reason.to_string();
+        let has_reason = got.contains(&reason);
+        let has_coords = got.contains(&e.line.to_string()) && got.contains(&e.column.to_string());
+        let lines: Vec<&str> = got.split('\n').collect();
+        let expr_lines: Vec<&str> = expr.split('\n').collect();
+        let caret = format!("{}^", " ".repeat(e.column));
+        let caret_ok = lines.windows(2).any(|w| w[1] == caret && expr_lines.get(e.line).map_or(false, |l| w[0] == *l || w[0].ends_with(l)));
+        if !(has_reason && has_coords && caret_ok) {
+            st.violate(viol("C12/rendering", sub, expr, doc, want, got));
+            return false;
+        }
+        st.count("rendering_differs_in_wording_only", 1);
     }
     true
 }
